@@ -121,6 +121,13 @@ static Reg r_rev("georev", [](const Args& a) {
       if (!far && ((inside > 1e-9 && h < -htol) || (inside < -1e-9 && h > htol))) bad("least-height", "sign of h does not tell inside from outside");
     }
   }
+  if (r > 2 * ea / EPS) {
+    // far field (theorem reverse_farfield_bound): the direction is the geocentric one and h = |P| — also where hypot(X, Y) overflows
+    LD RR = hypotl(X, Y), rr = hypotl(RR, Z); LD sphi, cphi, slam, clam; sincosld(lat, lon, sphi, cphi, slam, clam);
+    LD dd = hypotl(hypotl(cphi * clam - X / rr, cphi * slam - Y / rr), sphi - Z / rr);
+    if (!(dd <= 1e-15)) bad("far-field", "direction of the result differs from P/|P| by " + std::to_string((double)dd));
+    if (!(rr > (LD)std::numeric_limits<double>::max() ? h == INFINITY : fabsl(h - rr) <= 2 * ulp(h))) bad("far-field", "h is not |P|");
+  }
   double Rxy = std::hypot(X, Y);
   if (Rxy == 0 || Rxy > 1e-290) {  // a subnormal distance from the axis has too few bits to define the longitude direction
     if (!orthonormal(M, 8e-16)) bad("rotation-orthonormal", "Reverse: M^T M != I or det != 1");
